@@ -60,6 +60,8 @@ def jItems (req : Json) : Except String (List Item) := do
   | "node" => do
     let n ← (arr "nodes").mapM jSiNode
     pure (n.map Item.node)
+  -- a configuration update that carries the configuration in force: no item, nothing may change, it must be answered
+  | "conf" => pure []
   | t => throw s!"unknown request type {t}"
 
 /-- configs.UserRegExp `^[_a-zA-Z][a-zA-Z0-9:#/_.@-]*[$]?$` -/
